@@ -1225,7 +1225,42 @@ mod probe {
     }
 }
 
+// deep recursion of the recursive readers inside a thread with the default 2 MiB stack (what the worker pool uses).
+// A stack overflow aborts the process, so every probe runs in a child process of this executable.
+pub fn stack_probe(entry: &str, n: usize) {
+    let entry = entry.to_string();
+    let h = std::thread::Builder::new().stack_size(2 * 1024 * 1024).spawn(move || {
+        match entry.as_str() {
+            "request" => { let mut raw = b"GET / HTTP/1.1\r\n".to_vec(); for _ in 0..n { raw.extend(b"a\n"); } raw.extend(b"\r\n"); let _ = crate::request::Request::parse(&raw); }
+            "response" => { let mut raw = b"HTTP/1.1 200 OK\r\n".to_vec(); for _ in 0..n { raw.extend(b"a: b\n"); } raw.extend(b"\r\nbody"); let _ = crate::response::Response::parse(&raw); }
+            "multipart" => { let mut raw = b"xyz\r\n".to_vec(); for _ in 0..n { raw.extend(b"a: b\r\n\r\nv\r\nxyz\r\n"); } let _ = crate::body::multipart_form_data::FormMultipartData::parse(&raw, "xyz".to_string()); }
+            "byteranges" => { let mut raw = b"HTTP/1.1 206 Partial Content\r\nContent-Type: multipart/byteranges; boundary=String_separator\r\n\r\n--String_separator\r\n".to_vec();
+                              for _ in 0..n { raw.extend(b"Content-Type: text/plain\r\nContent-Range: bytes 0-1/9\r\n\r\nab\r\n--String_separator\r\n"); } let _ = crate::response::Response::parse(&raw); }
+            _ => {}
+        }
+    }).unwrap();
+    let _ = h.join();
+}
+mod stack {
+    use super::*;
+    pub fn search() -> bool {
+        let mut h = Hits::new();
+        let exe = std::env::current_exe().unwrap();
+        // inputs of at most 1 MiB; the server's default request buffer is 10000 bytes (about 4990 two-byte lines)
+        for (entry, n) in [("request", 4990usize), ("request", 100000), ("response", 100000), ("multipart", 50000), ("byteranges", 15000)] {
+            let st = std::process::Command::new(&exe).args(["stackprobe", entry, &n.to_string()]).stderr(std::process::Stdio::null()).status();
+            let ok = st.map(|s| s.success()).unwrap_or(false);
+            if !ok {
+                let case = if entry == "request" && n <= 4990 { "c20_stack_request_within_default_buffer".to_string() } else { format!("c20_stack_{}", entry) };
+                h.hit("stack", &case, entry, &n.to_string(), "the process was killed by a stack overflow (2 MiB thread)");
+            }
+        }
+        h.n > 0
+    }
+}
+
 pub fn dispatch(args: &[String]) -> i32 {
+    if args.len() > 2 && args[0] == "stackprobe" { stack_probe(&args[1], args[2].parse().unwrap_or(1000)); return 0; }
     if args.len() > 0 && args[0] == "probe" { probe::run(); return 0; }
     if args.len() > 0 && args[0] == "probe2" { probe2::run(); return 0; }
     panic::set_hook(Box::new(|_| {}));
@@ -1243,6 +1278,7 @@ pub fn dispatch(args: &[String]) -> i32 {
         ("replay", "request") => req::replay(&args[2], &args[3]),
         ("search", "shims") => shimtest::search(args.get(2).and_then(|s| s.parse().ok()).unwrap_or(1)),
         ("search", "parsers") => parsers::search(args.get(2).and_then(|s| s.parse().ok()).unwrap_or(1)),
+        ("search", "stack") => stack::search(),
         ("search", "statics") => statics::search(1),
         ("replay", "statics") => statics::replay(&args[2], &args[3]),
         ("search", "ranges") => statics::search_ranges(1),
